@@ -10,6 +10,12 @@ import (
 )
 
 func main() {
+	// Cases run in supervised child processes of this same binary (a panic in
+	// a library goroutine or a runtime fatal error cannot be recovered).
+	if seqpart.IsWorker() {
+		seqpart.WorkerMain()
+		return
+	}
 	tier := flag.String("tier", "quick", "quick|thorough")
 	flag.Parse()
 	r := rep.New("C02", *tier, "model_checking")
